@@ -1341,6 +1341,11 @@ class Process(StateMachine, persistence.Savable, metaclass=ProcessStateMachineMe
                 next_state = self.create_state(process_states.ProcessState.EXCEPTED, *sys.exc_info()[1:])
                 self._set_interrupt_action(None)
 
+            if self.has_terminated():
+                # The process was failed from outside while the step was in flight (e.g. by a scheduled callback
+                # that raised): the terminal state is final, there is nothing left to transition to
+                return
+
             if self._interrupt_action:
                 self._interrupt_action.run(next_state)
             else:
